@@ -89,3 +89,15 @@ Theorem C15_rule_order_irrelevant : forall rs rs',
   Permutation rs rs' -> sort_rules_by_priority rs = sort_rules_by_priority rs'.
 Proof. exact rule_order_irrelevant. Qed.
 Print Assumptions C15_rule_order_irrelevant.
+
+(* dlint's two selections (examples/dlint): `--rule c` and a config file *)
+Theorem C15_rule_flag_selects_exactly : forall all c r,
+  In r (dlint_rule_flag all c) <-> In r all /\ r_code r = c.
+Proof. exact rule_flag_selects_exactly. Qed.
+Print Assumptions C15_rule_flag_selects_exactly.
+
+Theorem C15_config_selects : forall all tags excl incl r,
+  In r (dlint_config_rules all tags excl incl) <->
+  In r all /\ ((exists t, In t (r_tags r) /\ In t tags) \/ In (r_code r) incl) /\ ~ In (r_code r) excl.
+Proof. exact config_selects. Qed.
+Print Assumptions C15_config_selects.
